@@ -203,6 +203,26 @@ func (e *Exec) seqReturned(st *State, fr *Frame) ([]*State, bool) {
 	return e.nextSeq(st, fr)
 }
 
+// publish marks every reference reachable as a leaf of v as handed out.
+func (e *Exec) publish(st *State, v Value) {
+	for _, l := range v.L {
+		if st.fresh[l.S] {
+			st.published[l.S] = true
+		}
+	}
+	if v.P != nil && st.fresh[v.P.Base.S] {
+		st.published[v.P.Base.S] = true
+	}
+	if v.Fn != nil {
+		for _, b := range v.Fn.Bind {
+			e.publish(st, b)
+		}
+	}
+	if v.DynV != nil {
+		e.publish(st, *v.DynV)
+	}
+}
+
 func (e *Exec) dispatch(st *State, fr *Frame, ci *callInfo, retTo ssa.Value, mode int) ([]*State, bool) {
 	if ci.key == "(*sync.Once).Do" && len(ci.args) == 2 && ci.args[1].Fn != nil {
 		// sync.Once: the function runs on the first call only
@@ -250,6 +270,12 @@ func (e *Exec) dispatch(st *State, fr *Frame, ci *callInfo, retTo ssa.Value, mod
 	}
 	// 2. contract (own or assumed)
 	if c := e.eng.specs.Funcs[ci.key]; c != nil && !(e.top != nil && e.top.inlineSelf && ci.fn == e.fn) {
+		for _, a := range ci.args {
+			e.publish(st, a)
+		}
+		for _, a := range ci.bind {
+			e.publish(st, a)
+		}
 		succ := e.applyContract(st, fr, ci, c, retTo, mode)
 		return succ, false
 	}
@@ -266,6 +292,9 @@ func (e *Exec) dispatch(st *State, fr *Frame, ci *callInfo, retTo ssa.Value, mod
 		return []*State{st}, false
 	}
 	// 4. unknown call
+	for _, a := range ci.args {
+		e.publish(st, a)
+	}
 	res := e.unknownCall(st, ci, retTo)
 	return e.afterCall(st, fr, retTo, res, mode)
 }
@@ -898,11 +927,21 @@ func (e *Exec) applyAssigns(st *State, env *SpecEnv, c *FuncContract) {
 		e.havocAll(st)
 		return
 	}
+	var self Term
+	if c.Attrs["not_self"] == "true" && e.top != nil && e.fn.Signature.Recv() != nil && len(e.fn.Params) > 0 {
+		if v, ok := e.top.params[e.fn.Params[0].Name()]; ok && len(v.L) == 1 && isPointer(v.T) {
+			self = v.L[0]
+		}
+	}
 	for _, t := range e.assignTargets(env, c, c.Assigns) {
 		if t.whole {
 			old := e.cur(st, t.key, t.sort, t.two)
 			e.havocKey(st, t.key, t.sort, t.two)
 			e.monotoneLinkFrom(st, t.key, old, st.heap[t.key])
+			if self.S != "" && !t.two {
+				// writer chains are acyclic: a call through the wrapped writer does not touch the wrapper itself
+				st.assert(Eq(Select(st.heap[t.key], self), Select(old, self)))
+			}
 		} else {
 			old := e.cur(st, t.key, t.sort, t.two)
 			e.havocAt(st, t.key, t.sort, t.two, t.obj)
